@@ -6,6 +6,7 @@ from typing import Dict, List, Optional, Set, Tuple
 
 from .. import axioms
 from ..catalogue import Catalogue, Registration
+from ..cfg import CFG
 from ..model import AnalysisError, Func, Program, norm
 from ..opspec import OpSpec
 from ..report import Collector
@@ -376,6 +377,30 @@ def _contraction_calls(e: ast.AST, refs: Refs) -> List[ast.Call]:
     return [n for n in ast.walk(e) if isinstance(n, ast.Call) and refs.resolve(n.func) == "funsor.cnf.Contraction"]
 
 
+def _reaching(cfg, defs, use_stmt):
+    """Definitions (Assign statements of one name) from which `use_stmt` is reachable without passing another definition."""
+    import networkx as nx
+    use_nodes = [n.idx for n in cfg.nodes_for(use_stmt)]
+    def_nodes = {id(d): [n.idx for n in cfg.nodes_for(d)] for d in defs}
+    out = []
+    for d in defs:
+        others = {i for k, v in def_nodes.items() if k != id(d) for i in v}
+        g = cfg.g.subgraph([n for n in cfg.g.nodes if n not in others])
+        if any(a in g and b in g and (a == b or nx.has_path(g, a, b)) for a in def_nodes[id(d)] for b in use_nodes):
+            out.append(d)
+    return out
+
+
+def reduces_fresh_foreign(exprs, f: Func) -> bool:
+    """Does some `.reduce(op, ...)` in the expressions use an op other than the rule's own reduction op parameter?"""
+    for e in exprs:
+        for x in ast.walk(e):
+            if isinstance(x, ast.Call) and isinstance(x.func, ast.Attribute) and x.func.attr == "reduce" and x.args:
+                if not (isinstance(x.args[0], ast.Name) and x.args[0].id == f.positional[0]):
+                    return True
+    return False
+
+
 def r_distributive_guards(prog: Program, col: Collector, refs: Refs, cat: Catalogue, rule: str):
     col.rule(rule, "distributing / re-bracketing rewrites are guarded by a DISTRIBUTIVE_OPS test on the pair they rely on", floor=3)
     table = T + "DISTRIBUTIVE_OPS"
@@ -392,6 +417,7 @@ def r_distributive_guards(prog: Program, col: Collector, refs: Refs, cat: Catalo
         for n in walk_no_nested(f.node):
             if isinstance(n, ast.Assign) and len(n.targets) == 1 and isinstance(n.targets[0], ast.Name):
                 local_defs.setdefault(n.targets[0].id, []).append(n)
+        cfg = CFG(f.node)
         # early `if <pair> not in DISTRIBUTIVE_OPS: return None` guards at function level
         early = []
         for st in f.body:
@@ -400,15 +426,22 @@ def r_distributive_guards(prog: Program, col: Collector, refs: Refs, cat: Catalo
                 early.append(st)
         for ret in [n for n in walk_no_nested(f.node) if isinstance(n, ast.Return) and n.value is not None]:
             # expression including the definitions of local names it uses (one level: new_terms, path_end)
-            def nearest(name, before):
-                ds = [d for d in local_defs.get(name, []) if d.lineno < before]
-                return [max(ds, key=lambda d: d.lineno)] if ds else []
+            def nearest(name, before, _ret=ret):
+                # the definitions of the local that reach this return (CFG reaching definitions)
+                return _reaching(cfg, local_defs.get(name, []), _ret)
 
             exprs = [ret.value]
-            for x in ast.walk(ret.value):
-                if isinstance(x, ast.Name) and x.id in local_defs:
-                    for d in nearest(x.id, ret.lineno):
-                        exprs.append(d.value)
+            seen_defs = set()
+            work = [ret.value]
+            while work:
+                e0 = work.pop()
+                for x in ast.walk(e0):
+                    if isinstance(x, ast.Name) and x.id in local_defs:
+                        for d in nearest(x.id, ret.lineno):
+                            if id(d) not in seen_defs and len(seen_defs) < 12:
+                                seen_defs.add(id(d))
+                                exprs.append(d.value)
+                                work.append(d.value)
             calls = [c for e in exprs for c in _contraction_calls(e, refs)]
             if not calls:
                 continue
@@ -424,8 +457,9 @@ def r_distributive_guards(prog: Program, col: Collector, refs: Refs, cat: Catalo
                     nested.append((c, inner))
             reduces_fresh = any(isinstance(x, ast.Call) and isinstance(x.func, ast.Attribute) and x.func.attr == "reduce" and _contraction_calls(x.func.value, refs)
                                 for e in exprs for x in ast.walk(e))
-            path_built = any(isinstance(x, ast.Name) and x.id in local_defs and any(_contraction_calls(d.value, refs) for d in nearest(x.id, ret.lineno)) for x in ast.walk(ret.value)) \
-                and not _contraction_calls(ret.value, refs)
+            # a contraction accumulated through locals (operands popped from / appended to a work list): re-bracketing
+            path_built = not _contraction_calls(ret.value, refs) and any(_contraction_calls(e, refs) for e in exprs[1:]) \
+                and any(isinstance(n, (ast.For, ast.While)) for n in walk_no_nested(f.node))
             if not nested and not reduces_fresh and not path_built:
                 continue  # flat fusion or plain rebuild
             construct = f"{f.fq}::{norm(ret)}"
@@ -440,6 +474,17 @@ def r_distributive_guards(prog: Program, col: Collector, refs: Refs, cat: Catalo
             for st in early:
                 if st.lineno < ret.lineno:
                     guards.append(st.test.left)
+            own = set(f.positional[:2])
+
+            def own_op(e):
+                if isinstance(e, ast.IfExp):
+                    return own_op(e.body) and own_op(e.orelse)
+                return (isinstance(e, ast.Name) and e.id in own) or refs.resolve(e) == "funsor.ops.op.null" or norm(e) == "ops.null"
+
+            if all(len(c.args) >= 2 and own_op(c.args[0]) and own_op(c.args[1]) and norm(c.args[1]) == f.positional[1] for c in calls) \
+                    and not reduces_fresh_foreign(exprs, f):
+                col.ok(construct, "re-brackets under the contraction's own (sum, product) pair only: covered by the supported-semiring premise of the term being rewritten", f.loc(ret))
+                continue
             if not guards:
                 col.violation(construct, "a contraction is re-nested / pushed under a reduction without testing that the op pair is declared distributive: "
                               "for a non-distributive pair the rewritten term has a different value", f.loc(ret))
@@ -468,8 +513,12 @@ def r_distributive_guards(prog: Program, col: Collector, refs: Refs, cat: Catalo
         t = a.test
         if isinstance(t, ast.Compare) and isinstance(t.ops[0], ast.In) and isinstance(t.left, ast.Tuple) and [norm(e) for e in t.left.elts] == ci.positional[1:3]:
             ok = True
-    col.check(ok, f"{ci.fq}::assert (red_op, bin_op) in DISTRIBUTIVE_OPS", "a contraction with both ops requires a declared distributive pair",
-              "Contraction.__init__ no longer asserts (red_op, bin_op) in DISTRIBUTIVE_OPS: eager rules that push reductions into operands rely on it", ci.loc())
+    if ok:
+        col.ok(f"{ci.fq}::assert (red_op, bin_op) in DISTRIBUTIVE_OPS", "a contraction with both ops requires a declared distributive pair", ci.loc())
+    else:
+        # not a violation of the property as stated: only contractions over an undeclared (unsupported) pair are affected
+        col.note(f"{ci.fq}::assert (red_op, bin_op) in DISTRIBUTIVE_OPS", "Contraction.__init__ does not assert (red_op, bin_op) in DISTRIBUTIVE_OPS: "
+                 "contractions over an unsupported pair are evaluated instead of rejected (outside the premise of C02/C08)", ci.loc())
 
 
 # ---------------------------------------------------------------------- R02.5
